@@ -155,6 +155,14 @@ def check(tier: str) -> Result:
                 i_split = i
     res.add("C15.R1", f.loc(), "wrappers.JumanjiToGymWrapper.reset", "reset(seed=...) re-seeds before the key is split", i_seed is not None and i_split is not None and i_seed < i_split,
             f"seed at statement {i_seed}, split at statement {i_split}")
+    # the guard must be `seed is not None` (every given seed, including 0, re-seeds)
+    _, _, _, _, vreset = run_method(tree, ci, "reset", attrs)
+    seedp = pr["seed"]
+    guards = [uncopy(e.target) for e in vreset.events if e.kind == "py_branch" and e.name == "if" and e.func is f and e.target is not None and contains(e.target, seedp)]
+    good = [g for g in guards if (g.kind == "cmp" and g.args[0] == "isnot" and g.args[1] is seedp and g.args[2] is NONE) or
+            (g.kind == "un" and g.args[0] == "not" and g.args[1].kind == "cmp" and g.args[1].args[0] == "is" and g.args[1].args[1] is seedp and g.args[1].args[2] is NONE)]
+    res.add("C15.R1", f.loc(), "wrappers.JumanjiToGymWrapper.reset", "every given seed re-seeds (guard is `seed is not None`, not truthiness)", bool(good) and len(guards) == len(good),
+            f"guard(s) {[txt(g, 3, 50) for g in guards]}" + ("" if good and len(guards) == len(good) else " -- a truthiness test ignores seed=0"))
     ss = st.get("_state", [])
     res.add("C15.R2", f.loc(), "wrappers.JumanjiToGymWrapper.reset", "self._state <- state returned by the inner reset", rc is not None and ss == [mk("proj", rc, 0)], f"{[txt(s, 4, 80) for s in ss]}")
     if rc is not None and r.kind == "tuple" and len(r.args[0]) == 2:
@@ -191,6 +199,17 @@ def check(tier: str) -> Result:
         res.add("C15.R3", f.loc(), "wrappers.JumanjiToGymWrapper.step", "info is the inner extras", ok, txt(info, 4, 120))
     else:
         res.add("C15.R3", f.loc(), "wrappers.JumanjiToGymWrapper.step", "returns (obs, reward, terminated, truncated, info) from one inner step", False, txt(r, 4, 200))
+    # ---- jumanji_to_gym_obs: array leaves are converted without changing their dtype
+    cf = tree.functions.get(W + "jumanji_to_gym_obs")
+    if cf is None:
+        raise AnalysisError("anchor jumanji_to_gym_obs not found")
+    vc = VFG(tree, Model(tree))
+    ob = mk("param", cf.qual, cf.params[0])
+    rc = uncopy(vc.apply_func(cf, None, None, [ob], {}, None, None))
+    arr = [x for x in (rc.args[0] if rc.kind == "phi" else (rc,)) if ext_name(x) in ("numpy.asarray", "numpy.array", "jax.device_get", "jax.numpy.asarray")]
+    okc = bool(arr) and all(x.args[1] == (ob,) and not dict(x.args[2]).get("dtype") and len(x.args[2]) == 0 for x in arr)
+    res.add("C15.R3", cf.loc(), "wrappers.jumanji_to_gym_obs", "array leaves are converted with np.asarray(leaf) and keep their dtype", okc,
+            f"{[txt(x, 3, 70) for x in arr]}" if arr else txt(rc, 3, 160))
     # ================================================================== MultiToSingleWrapper
     ci = tree.classes[W + "MultiToSingleWrapper"]
     self_t = mk("self", ci.qual)
